@@ -348,3 +348,26 @@ Example C18_nonvacuous_stopping_rule :
       forall x, ex_nrm (cvec (dag [rmorphism of idfun] (unvec x))) = ex_nrm x
     & forall a : rat, (0 <= `|a|)%R ].
 Proof. exact: ex_norm_hyps. Qed.
+
+(* ---- solve_csr_dense / solve_dia_dense: result dispatch --------------------- *)
+(* the answer x of an iterative solver (x, info) is handed on only when the
+   solver reports success (info = 0); any other flag raises *)
+Theorem C18_solver_answer_returned_only_on_success :
+  forall x c,
+  (forall y, solve_dispatch (STup x [:: c]) = SRet y -> c = Z0 /\ y = x) /\
+  (c <> Z0 -> exists k, solve_dispatch (STup x [:: c]) = SRaiseTol k \/
+                        solve_dispatch (STup x [:: c]) = SRaiseBad k).
+Proof.
+move=> x c; split; first by move=> y; exact: solve_dispatch_iterative.
+exact: solve_dispatch_iterative_raises.
+Qed.
+Print Assumptions C18_solver_answer_returned_only_on_success.
+
+(* whatever is returned is the solver's own solution entry *)
+Theorem C18_solver_dispatch_returns_solution_entry :
+  forall r y, solve_dispatch r = SRet y ->
+  match r with SArr x => y = x | STup x _ => y = x end.
+Proof. exact: solve_dispatch_payload. Qed.
+Print Assumptions C18_solver_dispatch_returns_solution_entry.
+Example C18_nonvacuous_solver_dispatch : solve_dispatch_example_stmt.
+Proof. exact: solve_dispatch_example. Qed.
